@@ -6,12 +6,12 @@ Abstract syntax (Python tuples):
   ("lit", n) | ("ref", k, x)            reference to x wrapped in the logging call (lg k x)
   ("setv", x, e) | ("setx", x, e)
   ("let", [(x, e) ...], [body ...])
-  ("fn", params, [body ...])            a closure value
+  ("fn", params, [body ...])            a closure value; a parameter is a name or ("opt", name, default)
   ("defn", f, params, [body ...])
   ("call", e, [args ...]) | ("callm", C, m)   (.m (C))
   ("class", C, [(attr, n) ...], [defn ...])
   ("nonlocal", [x ...]) | ("global", [x ...])
-  ("lfor", kind, [clause ...], e)       clause = ("for", x, n) | ("setv", x, e) | ("if", e) | ("do", e)
+  ("lfor", kind, [clause ...], e)       clause = ("for", x, n | ("rng", e))  (range n) / (range (min 2 e)) | ("setv", x, e) | ("if", e) | ("do", e)
   ("do", [forms])
   ("callall", name)                     (for [hfn name] (hfn)): call every closure of a list
 
@@ -36,6 +36,14 @@ POOL = ("x", "y", "z")
 
 # ------------------------------------------------------------------ rendering
 
+def pname(p):
+    return p if isinstance(p, str) else p[1]
+
+
+def rparams(params):
+    return " ".join(p if isinstance(p, str) else "[%s %s]" % (p[1], render(p[2])) for p in params)
+
+
 def render(f):
     k = f[0]
     if k == "lit":
@@ -49,9 +57,9 @@ def render(f):
     if k == "let":
         return "(let [%s] %s)" % (" ".join("%s %s" % (x, render(e)) for x, e in f[1]), " ".join(map(render, f[2])))
     if k == "fn":
-        return "(fn [%s] %s)" % (" ".join(f[1]), " ".join(map(render, f[2])))
+        return "(fn [%s] %s)" % (rparams(f[1]), " ".join(map(render, f[2])))
     if k == "defn":
-        return "(defn %s [%s] %s)" % (f[1], " ".join(f[2]), " ".join(map(render, f[3])))
+        return "(defn %s [%s] %s)" % (f[1], rparams(f[2]), " ".join(map(render, f[3])))
     if k == "call":
         return "(%s%s)" % (render(f[1]), "".join(" " + render(a) for a in f[2]))
     if k == "callm":
@@ -63,7 +71,9 @@ def render(f):
     if k == "lfor":
         cl = []
         for c in f[2]:
-            if c[0] == "for":
+            if c[0] == "for" and isinstance(c[2], tuple):
+                cl.append("%s (range (min 2 %s))" % (c[1], render(c[2][1])))
+            elif c[0] == "for":
                 cl.append("%s (range %d)" % (c[1], c[2]))
             elif c[0] == "setv":
                 cl.append(":setv %s %s" % (c[1], render(c[2])))
@@ -109,6 +119,7 @@ class Info:
 class LetEnv:
     def __init__(self, parent, x, cell):
         self.parent, self.x, self.cell = parent, x, cell
+        self.neutral = False   # set by a later (global x) / (defn x ..) of the same Python scope
 
 
 class FrameEnv:
@@ -125,8 +136,9 @@ class CompEnv:
 
 
 class Closure:
-    def __init__(self, params, body, env, info, name):
+    def __init__(self, params, body, env, info, name, defaults=None):
         self.params, self.body, self.env, self.info, self.name = params, body, env, info, name
+        self.defaults = defaults or {}
 
 
 class ClassVal:
@@ -162,6 +174,7 @@ def analyse_function(params, body, module_defined, static_chain, is_module=False
     static_chain: the enclosing static scopes, innermost first: ("let", x) | ("fn", Info) | ("class",) | ("module",)
     Raises CompileError / Ambiguous."""
     info = Info()
+    params = [pname(p) for p in params]
     info.locals |= set(params)
     used_direct = []   # names read or assigned so far at function level (not through one of its lets)
     used_nested = set()  # names mentioned inside functions/classes nested in this one, so far
@@ -201,11 +214,15 @@ def analyse_function(params, body, module_defined, static_chain, is_module=False
                     lb = lb | {x}
                 walk(f[2], lb, comp_own, frozenset(x for x, _ in f[1]))
             elif k == "defn":
-                if f[1] in letbound:
-                    raise Ambiguous("defn of a let-bound name (hoisting)")
+                # hoisted: assigns in the Python scope even if a let binds the name; later references
+                # mean the function (tests/native_tests/let.hy, test-let-defn-...)
+                if f[1] in used_nested:
+                    raise Ambiguous("defn of a name that a function defined earlier mentions")
                 info.locals.add(f[1])
+                walk([p[2] for p in f[2] if not isinstance(p, str)], letbound, comp_own)
                 mentioned(f[3], used_nested)
             elif k == "fn":
+                walk([p[2] for p in f[1] if not isinstance(p, str)], letbound, comp_own)
                 mentioned(f[2], used_nested)
             elif k == "class":
                 info.locals.add(f[1])
@@ -216,6 +233,8 @@ def analyse_function(params, body, module_defined, static_chain, is_module=False
                 walk(f[1], letbound, comp_own)
             elif k == "lfor":
                 own = set(comp_own) | {c[1] for c in f[2] if c[0] in ("for", "setv")}
+                if f[2] and f[2][0][0] == "for" and isinstance(f[2][0][2], tuple):
+                    walk([f[2][0][2][1]], letbound, comp_own)     # the first iterable: enclosing scope
                 for c in f[2]:
                     if c[0] == "setv":
                         walk([c[2]], letbound - own, own)
@@ -232,8 +251,6 @@ def analyse_function(params, body, module_defined, static_chain, is_module=False
                         raise Ambiguous("nonlocal of a name bound by the very let it is written in")
                     if k == "nonlocal" and x in letbound:
                         continue  # already means the let binding of this function
-                    if k == "global" and x in letbound:
-                        raise Ambiguous("global of a name let-bound in the same function")
                     if x in params:
                         raise Ambiguous("declaration of a parameter")
                     if x in used_direct:
@@ -293,6 +310,7 @@ class Interp:
             k = f[0]
             if k in ("fn", "defn"):
                 params, body = (f[1], f[2]) if k == "fn" else (f[2], f[3])
+                self.static_check([p[2] for p in params if not isinstance(p, str)], chain, letbound_here)
                 info = analyse_function(params, body, self.module_defined, chain)
                 self.infos[id(f)] = info
                 self.static_check(body, [("fn", info)] + chain, frozenset())
@@ -330,7 +348,7 @@ class Interp:
         direct = True
         while e is not None:
             if isinstance(e, LetEnv):
-                if e.x == x:
+                if e.x == x and not e.neutral:
                     return e.cell, 0
             elif isinstance(e, CompEnv):
                 if x in e.own:
@@ -351,6 +369,14 @@ class Interp:
                 return e.vars, x
             e = e.parent
         raise AssertionError("no module frame")
+
+    def neutralise(self, env, names):
+        """(global x) / (defn x ..): from here on, the lets of this Python scope no longer stand for x"""
+        e = env
+        while e is not None and not isinstance(e, FrameEnv):
+            if isinstance(e, LetEnv) and e.x in names:
+                e.neutral = True
+            e = e.parent
 
     def read(self, env, x):
         d, k = self.slot(env, x, False)
@@ -406,9 +432,12 @@ class Interp:
                 e2 = LetEnv(e2, x, [v])
             return self.body(f[2], e2)
         if k == "fn":
-            return Closure(f[1], f[2], env, self.infos[id(f)], "fn")
+            dfl = {p[1]: self.ev(p[2], env) for p in f[1] if not isinstance(p, str)}
+            return Closure([pname(p) for p in f[1]], f[2], env, self.infos[id(f)], "fn", dfl)
         if k == "defn":
-            self.write(env, f[1], Closure(f[2], f[3], env, self.infos[id(f)], f[1]))
+            dfl = {p[1]: self.ev(p[2], env) for p in f[2] if not isinstance(p, str)}
+            self.neutralise(env, [f[1]])
+            self.write(env, f[1], Closure([pname(p) for p in f[2]], f[3], env, self.infos[id(f)], f[1], dfl))
             return None
         if k == "call":
             fn = self.ev(f[1], env)
@@ -426,7 +455,10 @@ class Interp:
                 methods[m[1]] = Closure(m[2], m[3], cenv, self.infos[id(m)], m[1])
             self.write(env, f[1], ClassVal(f[1], dict(cenv.vars), methods))
             return None
-        if k in ("nonlocal", "global"):
+        if k == "global":
+            self.neutralise(env, f[1])
+            return None
+        if k == "nonlocal":
             return None
         if k == "callall":
             fns = self.read(env, f[1])
@@ -441,17 +473,24 @@ class Interp:
         if k == "lfor":
             out = []
             cenv = CompEnv(env, {c[1] for c in f[2] if c[0] in ("for", "setv")})
-            self.loop(f[2], f[3], cenv, out)
+            self.loop(f[2], f[3], cenv, out, first=True)
             return out
         raise ValueError(f)
 
-    def loop(self, clauses, final, cenv, out):
+    def loop(self, clauses, final, cenv, out, first=False):
         if not clauses:
             out.append(self.ev(final, cenv))
             return
         c, rest = clauses[0], clauses[1:]
         if c[0] == "for":
-            for i in range(c[2]):
+            n = c[2]
+            if isinstance(n, tuple):
+                # the first iterable belongs to the enclosing scope (as in a Python comprehension)
+                n = self.ev(n[1], cenv.parent if first else cenv)
+                if not isinstance(n, int) or isinstance(n, bool):
+                    raise Ambiguous("range of a non-integer")
+                n = min(2, n)
+            for i in range(n):
                 cenv.vars[c[1]] = i
                 self.loop(rest, final, cenv, out)
         elif c[0] == "setv":
@@ -467,11 +506,13 @@ class Interp:
     def apply(self, fn, args):
         if not isinstance(fn, Closure):
             raise Ambiguous("call of a non-function")
-        if len(args) != len(fn.params):
+        if len(args) > len(fn.params) or any(p not in fn.defaults for p in fn.params[len(args):]):
             raise Ambiguous("arity")
         fe = FrameEnv(fn.env, "fn", fn.info)
         for p, a in zip(fn.params, args):
             fe.vars[p] = a
+        for p in fn.params[len(args):]:
+            fe.vars[p] = fn.defaults[p]
         return self.body(fn.body, fe)
 
     def run(self):
@@ -549,6 +590,11 @@ class Gen:
                 out.append(self.ref(self.name()))
             elif c < 0.50 and self.flavour == "c06":
                 out.append(("setx", self.name(), self.lit()))
+            elif c < 0.56 and budget > 0:
+                # defn of a name from the pool: hoisted to the Python scope even where a let binds the name
+                x = self.name()
+                out.append(("defn", x, [], [self.ref(self.name())]))
+                out.append(self.ref(x))
             elif c < 0.80 and budget > 0:
                 form, fname = self.construct(depth, budget, in_fn, local_fns)
                 nconstructs += 1
@@ -576,6 +622,11 @@ class Gen:
         if r.random() < p:
             names = r.sample(POOL, r.randint(1, 3))
             out.append(("nonlocal" if r.random() < 0.7 else "global", names))
+            rest = [x for x in POOL if x not in names]
+            if rest and out[0][0] == "nonlocal" and r.random() < 0.35:
+                # a second, separate declaration for other names (each is resolved on its own)
+                out.append(("nonlocal", r.sample(rest, r.randint(1, len(rest)))))
+                return out
             if r.random() < 0.15:
                 rest = [x for x in POOL if x not in names]
                 if rest:
@@ -610,6 +661,10 @@ class Gen:
             return ("let", binds, body), None
         if kind in ("defn", "fn"):
             params = [self.name()] if r.random() < 0.25 else []
+            nreq = len(params)
+            if r.random() < 0.15:
+                x = self.name()
+                params = params + [("opt", "g%d" % next(self.fns), ("fn", [x], [self.ref(x)]))]
             body = self.decls(True)
             body += self.statements(depth + 1, budget - 1, True, callable_fns)
             if self.flavour == "c07" and r.random() < 0.08:
@@ -619,8 +674,8 @@ class Gen:
             body.append(self.ref(self.name()))
             fname = "f%d" % next(self.fns)
             if kind == "fn":
-                return ("setv", fname, ("fn", params, body)), (fname, len(params), "fn")
-            return ("defn", fname, params, body), (fname, len(params), "fn")
+                return ("setv", fname, ("fn", params, body)), (fname, nreq, "fn")
+            return ("defn", fname, params, body), (fname, nreq, "fn")
         if kind == "class":
             cname = "C%d" % next(self.fns)
             attrs = [(self.name(), next(self.lits))] if r.random() < 0.7 else []
@@ -629,6 +684,8 @@ class Gen:
             return ("class", cname, attrs, [("defn", "m", ["self"], body)]), (cname, 0, "class")
         # lfor
         cl = [("for", self.name(), r.randint(1, 2))]
+        if self.flavour == "c06" and r.random() < 0.2:
+            cl = [("for", self.name(), ("rng", self.ref(self.name())))]
         for _ in range(r.randint(0, 2)):
             cc = r.random()
             if cc < 0.35:
@@ -659,6 +716,67 @@ class Gen:
             return ("do", [("setv", res, ("lfor", "lfor", cl, final)), ("callall", res),
                            ("setv", self.name(), self.lit()), ("callall", res)]), None
         return ("setv", res, ("lfor", "lfor", cl, final)), None
+
+    # ---- scenarios: small programs around one interplay of constructs, randomly filled and wrapped
+    def _wrap(self, pre, core, post):
+        """at module level, or inside a function (function level)"""
+        r = self.rng
+        if r.random() < 0.5:
+            return pre + core + post
+        return pre + [("defn", "main", [], core + [self.ref(self.name())]), ("call", ("sym", "main"), [])] + post
+
+    def scenario(self, kind):
+        self.reset()
+        r = self.rng
+        names = list(POOL)
+        r.shuffle(names)
+        n, m, o = names
+        pre = [("setv", x, self.lit()) for x in POOL if r.random() < 0.8]
+        post = [self.ref(x) for x in POOL if r.random() < 0.6]
+        if kind == "hoist":
+            # defn of a name that an OUTER let of the same Python scope binds, written inside an inner let
+            inner_binds = r.choice([m, m, n])
+            inner = ("let", [(inner_binds, self.lit())],
+                     [self.ref(n), ("defn", n, [], [self.ref(m)]), self.ref(n)] +
+                     ([("call", ("sym", n), [])] if r.random() < 0.6 else []))
+            outer_binds = [(n, self.lit())] + ([(o, self.lit())] if r.random() < 0.4 else [])
+            r.shuffle(outer_binds)
+            core = [("let", outer_binds, [self.ref(n), inner, self.ref(n)] +
+                     ([("call", ("sym", n), [])] if r.random() < 0.5 else []))]
+            return self._wrap(pre, core, post)
+        if kind == "default-lambda":
+            # a parameter default that is a lambda whose parameter is spelled like a let-bound name
+            f = "f%d" % next(self.fns)
+            g = "g%d" % next(self.fns)
+            body = [self.ref(n), self.ref(r.choice(names))]
+            fn = ("defn", f, [("opt", g, ("fn", [n], [self.ref(n)]))], body)
+            core = [("let", [(n, self.lit())] + ([(m, self.lit())] if r.random() < 0.5 else []),
+                     [fn, ("call", ("sym", f), []), ("setv", n, self.lit()), ("call", ("sym", f), []), self.ref(n)])]
+            return self._wrap(pre, core, post)
+        if kind == "global-in-lets":
+            # the same name bound by two nested lets of one function, (global name) in the inner one
+            f = "f%d" % next(self.fns)
+            inner = ("let", [(r.choice([n, n, m]), self.lit())],
+                     [self.ref(n), ("global", [n]), ("setv", n, self.lit()), self.ref(n)])
+            body = [("let", [(n, self.lit())], [self.ref(n), inner, ("setv", n, self.lit()), self.ref(n)]),
+                    self.ref(n)]
+            core = [("defn", f, [], body), ("call", ("sym", f), []), self.ref(n)]
+            return pre + core + post
+        if kind == "two-nonlocals":
+            # two separate nonlocal declarations that resolve through the same enclosing function
+            f, a, b = ("f%d" % next(self.fns) for _ in range(3))
+            fa = ("defn", a, [], [("nonlocal", [n]), ("setv", n, self.lit()), self.ref(n)])
+            if r.random() < 0.5:
+                fb = ("defn", b, [], [("nonlocal", [m]), ("setv", m, self.lit()), self.ref(m)])
+                inner = [fa, fb, ("call", ("sym", a), []), ("call", ("sym", b), [])]
+            else:
+                fa = ("defn", a, [], [("nonlocal", [n]), ("nonlocal", [m]), ("setv", n, self.lit()),
+                                      ("setv", m, self.lit()), self.ref(n), self.ref(m)])
+                inner = [fa, ("call", ("sym", a), [])]
+            body = [("setv", n, self.lit()), ("setv", m, self.lit())] + inner + [self.ref(n), self.ref(m)]
+            core = [("defn", f, [], body), ("call", ("sym", f), [])]
+            return pre + core + post
+        raise ValueError(kind)
 
     def program(self):
         self.reset()
